@@ -158,3 +158,54 @@ Proof.
   destruct (negb (pk_expired r =? 0)); [reflexivity|].
   destruct rl; simpl; [|reflexivity]. apply strict_check_spec.
 Qed.
+
+(* ---------- the validity rule in the words of the property text ---------- *)
+Lemma ns_le_ms a now c : a * 1000000 <= now + c * 1000000 <-> a <= now / 1000000 + c.
+Proof.
+  pose proof (Z.div_mod now 1000000 ltac:(lia)) as D.
+  pose proof (Z.mod_pos_bound now 1000000 ltac:(lia)) as B. lia.
+Qed.
+
+Lemma signed_ms_small u : 0 <= u < 2 ^ 63 -> signed_ms u = u.
+Proof.
+  intro H. unfold signed_ms. destruct (Z.ltb_spec u p63) as [L|L]; [reflexivity|].
+  destruct pow_literals as [E _]. rewrite E in L. lia.
+Qed.
+
+Lemma signed_ms_big u : 2 ^ 63 <= u < 2 ^ 64 -> signed_ms u = u - 2 ^ 64.
+Proof.
+  intro H. unfold signed_ms. destruct pow_literals as [E1 E2].
+  destruct (Z.ltb_spec u p63) as [L|L]; [rewrite E1 in L; lia|]. rewrite E2. reflexivity.
+Qed.
+
+Lemma was_valid_at_text now r atts rl :
+  0 <= atts < 2 ^ 63 -> 0 <= pk_valid_until r < 2 ^ 63 ->
+  (was_valid_at now r atts rl = true <->
+   (pk_expired r <> 0 /\ atts < pk_expired r) \/
+   (pk_expired r = 0 /\
+    (rl = Lenient \/
+     (pk_valid_until r <> 0 /\ atts <= Z.min (pk_valid_until r) (now / 1000000 + seven_days_ms))))).
+Proof.
+  intros Ha Hv. rewrite was_valid_at_eq_spec. unfold valid_at_spec.
+  rewrite (signed_ms_small atts Ha), (signed_ms_small _ Hv).
+  destruct (Z.eqb_spec (pk_expired r) 0) as [E|E]; cbn [negb].
+  - destruct rl; cbn [rule_strict negb].
+    + rewrite !andb_true_iff, negb_true_iff, Z.eqb_neq, !Z.leb_le, ns_le_ms.
+      split.
+      * intros [[H1 H2] H3]. right. split; [exact E|]. right. split; [exact H1|lia].
+      * intros [[H _]|[_ [H|[H1 H2]]]]; [contradiction|discriminate|]. split; [split|]; [exact H1|lia|lia].
+    + split; [|reflexivity]. intros _. right. split; [exact E|]. left; reflexivity.
+  - rewrite Z.ltb_lt. split.
+    + intro H. left. split; assumption.
+    + intros [[_ H]|[H _]]; [exact H|contradiction].
+Qed.
+
+(* timestamps of 2^63 and above are read as negative instants, hence before everything *)
+Lemma strict_check_wraps now atts vu :
+  2 ^ 63 <= atts < 2 ^ 64 -> 0 < vu < 2 ^ 63 -> 0 <= now -> strict_check now atts vu = true.
+Proof.
+  intros Ha Hv Hn. rewrite strict_check_spec.
+  rewrite (signed_ms_big atts Ha), (signed_ms_small vu ltac:(lia)).
+  rewrite !andb_true_iff, negb_true_iff, Z.eqb_neq, !Z.leb_le.
+  assert (seven_days_ms = 604800000) by reflexivity. lia.
+Qed.
